@@ -452,3 +452,192 @@ func nullBytesRule(c *Ctx, pkgs ...string) {
 	}
 	c.Check(n >= 4, "R-UNITS", strings.Join(pkgs, ","), "comparisons with asn1.NullBytes found", "-", fmt.Sprint(n))
 }
+
+// loopSkipCut: in the (unique) loop of fn that contains an instruction satisfying inLoop, control comes round to the
+// loop header again without passing a barrier instruction only past a fact satisfying cut.
+func (c *Ctx) loopSkipCut(rule string, fn *ssa.Function, label string, inLoop func(ssa.Instruction) bool, barrier func(ssa.Instruction) bool, cut FP) {
+	var sel *natLoop
+	for _, l := range natLoops(fn) {
+		has := false
+		for b := range l.blocks {
+			for _, in := range b.Instrs {
+				if inLoop(in) {
+					has = true
+				}
+			}
+		}
+		// innermost such loop
+		if has && (sel == nil || len(l.blocks) < len(sel.blocks)) {
+			sel = l
+		}
+	}
+	c.Sites++
+	if sel == nil {
+		c.Fail(rule, short(FuncName(fn)), label, c.W.Pos(fn.Pos()), "loop not found")
+		return
+	}
+	var starts []EdgeRef
+	for si, s := range sel.header.Succs {
+		if sel.blocks[s] && s != sel.header {
+			starts = append(starts, EdgeRef{B: sel.header, Succ: si})
+		}
+	}
+	hdr := sel.header
+	c.Cut(CutSpec{Rule: rule, Fn: fn, Label: label, StartEdges: starts, MinTargets: -1,
+		Target:  func(in ssa.Instruction, _ resolver) bool { return in == hdr.Instrs[0] },
+		Barrier: barrier, Cut: cut})
+}
+
+// nameFillRule: FillFromRDNSequence passes over an attribute (without dispatching on its type) only if its value is
+// not a string; an empty string is a value like any other and must reach its typed field.
+func nameFillRule(c *Ctx) {
+	w := c.W
+	fn := w.Fn("(*z/x509/pkix.Name).FillFromRDNSequence")
+	if fn == nil {
+		c.Undecided("R-CUT", "pkix.Name.FillFromRDNSequence", "anchor", "-", "not found")
+		return
+	}
+	isAssert := func(in ssa.Instruction) bool {
+		ta, ok := in.(*ssa.TypeAssert)
+		return ok && ta.CommaOk && typeStr(ta.AssertedType) == "string"
+	}
+	c.loopSkipCut("R-CUT", fn, "an attribute is passed over before the dispatch on its type only if its value is not a string", isAssert,
+		func(in ssa.Instruction) bool {
+			// t := atv.Type, the value every arm of the dispatch reads
+			v, ok := in.(ssa.Value)
+			return ok && strings.HasSuffix(Expr(v), ".Type")
+		},
+		func(f Fact) bool {
+			ex, ok := f.X.(*ssa.Extract)
+			if !ok || f.Op != "false" || ex.Index != 1 {
+				return false
+			}
+			ta, ok := ex.Tuple.(*ssa.TypeAssert)
+			return ok && ta.CommaOk
+		})
+}
+
+// c16Extras3: every fixed field of a serialised SCT is written on every successful path of serializeV1SCTHere (the
+// caller's buffer may hold anything), i.e. no Put*/copy into the output is conditional.
+func c16Extras3(c *Ctx) {
+	w := c.W
+	for _, name := range []string{"z/ct.serializeV1SCTHere", "z/x509/ct.serializeV1SCTHere"} {
+		fn := w.Fn(name)
+		if fn == nil {
+			if strings.HasPrefix(name, "z/ct.") {
+				c.Undecided("R-LAYOUT", short(name), "anchor", "-", "not found")
+			}
+			continue
+		}
+		n := 0
+		for _, b := range fn.Blocks {
+			for _, in := range b.Instrs {
+				cc := callCommon(in)
+				if cc == nil {
+					continue
+				}
+				cn := calleeName(cc)
+				isPut := strings.Contains(cn, "PutUint")
+				if bi, ok := cc.Value.(*ssa.Builtin); ok && bi.Name() == "copy" {
+					isPut = len(cc.Args) > 0 && strings.Contains(Expr(cc.Args[0]), "here")
+				}
+				if !isPut {
+					continue
+				}
+				n++
+				c.Sites++
+				the := in
+				dst := cc.Args[0]
+				if strings.Contains(cn, "PutUint") && len(cc.Args) > 1 {
+					dst = cc.Args[1]
+				}
+				c.Cut(CutSpec{Rule: "R-LAYOUT", Fn: fn, Label: fmt.Sprintf("output field write #%d (%s) happens on every successful path", n, Expr(dst)), Target: SuccessReturn(1, nil), MinTargets: -1,
+					Barrier: func(i2 ssa.Instruction) bool { return i2 == the }, Cut: func(Fact) bool { return false }})
+			}
+		}
+		c.Check(n >= 4, "R-LAYOUT", short(name), "writes into the output buffer found", w.Pos(fn.Pos()), fmt.Sprint(n))
+	}
+}
+
+// c17Extras3: Scan sends on a channel it created only after it started a goroutine that was handed that channel
+// (filling a bounded channel before any consumer exists blocks for good once the ranges outnumber its capacity).
+func c17Extras3(c *Ctx) {
+	w := c.W
+	fn := w.Fn("(*z/ct/scanner.Scanner).Scan")
+	if fn == nil {
+		c.Undecided("R-ORDER", "ct/scanner.Scanner.Scan", "anchor", "-", "not found")
+		return
+	}
+	n := 0
+	for _, b := range fn.Blocks {
+		for _, in := range b.Instrs {
+			sd, ok := in.(*ssa.Send)
+			if !ok {
+				continue
+			}
+			if _, ok := sd.Chan.(*ssa.MakeChan); !ok {
+				continue
+			}
+			n++
+			c.Sites++
+			started := false
+			for _, b2 := range fn.Blocks {
+				for _, i2 := range b2.Instrs {
+					g, ok := i2.(*ssa.Go)
+					// the goroutine is started before the send and never after it (workers are started in a loop,
+					// so dominance is too much to ask)
+					if !ok || !(g.Block() == in.Block() && instrIndex(g) < instrIndex(in) || g.Block() != in.Block() && blockReaches(g.Block(), in.Block())) || (g.Block() != in.Block() && blockReaches(in.Block(), g.Block())) {
+						continue
+					}
+					for _, a := range g.Call.Args {
+						if stripConv(a) == sd.Chan {
+							started = true
+						}
+					}
+					if mc, ok := g.Call.Value.(*ssa.MakeClosure); ok {
+						for _, bd := range mc.Bindings {
+							if bd == sd.Chan {
+								started = true
+							}
+						}
+					}
+				}
+			}
+			c.Check(started, "R-ORDER", "ct/scanner.Scanner.Scan", fmt.Sprintf("send #%d on %s happens after a goroutine that receives the channel was started", n, Expr(sd.Chan)), w.InstrPos(in), "no go statement handing over the channel lies before the send (and only before it)")
+		}
+	}
+	c.Check(n >= 1, "R-ORDER", "ct/scanner.Scanner.Scan", "sends on channels made by Scan found", w.Pos(fn.Pos()), fmt.Sprint(n))
+}
+
+// binderTranscriptRule: a PSK binder is computed over a transcript of its own (a fresh hash or a clone); the running
+// handshake transcript is never the hash that the truncated ClientHello is written to.
+func binderTranscriptRule(c *Ctx) {
+	w := c.W
+	n := 0
+	for _, fn := range w.FuncsOfPkg("z/tls") {
+		for _, in := range callsIn(fn, "(*z/tls.cipherSuiteTLS13).finishedHash") {
+			cc := callCommon(in)
+			if cc == nil || len(cc.Args) != 3 || !strings.Contains(strings.ToLower(Expr(cc.Args[1])), "binder") {
+				continue
+			}
+			n++
+			c.Sites++
+			fresh, running := false, ""
+			for v := range backClosure(cc.Args[2], nil) {
+				if cl, ok := v.(*ssa.Call); ok {
+					cn := calleeName(&cl.Call)
+					if cn == "(crypto.Hash).New" || strings.HasSuffix(cn, ".cloneHash") {
+						fresh = true
+					}
+				}
+				if u, ok := v.(*ssa.UnOp); ok && u.Op == token.MUL {
+					if fa, ok := u.X.(*ssa.FieldAddr); ok && fieldLeaf(fieldName(fa)) == "transcript" {
+						running = Expr(u)
+					}
+				}
+			}
+			c.Check(fresh && running == "", "R-PROV", short(FuncName(fn)), fmt.Sprintf("PSK binder #%d is computed over a hash of its own (hash.New or cloneHash), not over the running transcript", n), w.InstrPos(in), "transcript argument "+Expr(cc.Args[2])+" "+running)
+		}
+	}
+	c.Check(n >= 3, "R-PROV", "z/tls", "PSK binder computations found", "-", fmt.Sprint(n))
+}
